@@ -132,6 +132,7 @@ class Prop:
                 unit = 6 if last[3] is str else 8
                 lengths += [start + unit * k for k in (1, 2, 3, 7, 20) if start + unit * k <= start + last[2]]
                 lengths += [start + k for k in (1, 3, 5, 9, 13) if start + k <= start + last[2]]
+                lengths += [start + unit * k for k in gen.critical_tail_units(cls)]
             for L in sorted(set(lengths)):
                 for _ in range(reps):
                     out.append((cname, zero_padding(cname, gen.payload_bits(rng, cname, length=L)), 'len%d' % L))
@@ -199,10 +200,34 @@ class Prop:
             if b2[i] == b:
                 exact += 1
         ctx.dist['bit_exact_cases'] = exact
+        # the same cycle through the sentence layer: decode -> encode_msg -> decode() of the sentences
+        sub = [(c, b, label) for (c, b, label) in cs if label.startswith('len')][::2 if ctx.tier == 'quick' else 1]
+        ops = ['cycle_msg %s %s' % (c, b) for c, b, _ in sub]
+        outs = common.pmap(impl.step, ops)
+        ctx.evaluations += len(ops)
+        ctx.corr_commands['cycle_msg(oracle only)'] = len(ops)
+        firsts = {(c, b): m for (c, b, _), m in zip(cs, m1)}
+        for (c, b, label), o in zip(sub, outs):
+            want = firsts[(c, b)]
+            if want.startswith('ERR') or o == 'SKIP':
+                continue
+            known_empty = False
+            if o != want:
+                c1, f1 = parse_fields(want)
+                f2 = parse_fields(o)[1] if not o.startswith('ERR') else []
+                diff = [k for (k, a), (_, bb) in zip(f1, f2) if a != bb] if f2 else ['*']
+                how = sorted({'%s->%s' % ('empty-text' if a == 's:' else 'value', 'None' if bb == 'N' else 'other')
+                              for (k, a), (_, bb) in zip(f1, f2) if a != bb}) if f2 else ['*']
+                ctx.fail('decode -> encode_msg -> decode() of the sentences is not the identity on the decoded message',
+                         {'class': c, 'bits': b, 'case': label + '/sentences'}, want[:200], o[:200],
+                         {'class': c, 'kind': 'not-idempotent', 'fields': diff[:4], 'how': how})
 
     def replay(self, ctx, payload):
         inp = payload['failure']['input']
         c, b = inp['class'], inp['bits']
+        if str(inp.get('case', '')).endswith('/sentences'):
+            want = impl.step('frombits_cls %s %s' % (c, b))
+            return impl.step('cycle_msg %s %s' % (c, b)) in (want, 'SKIP')
         m1 = impl.step('frombits_cls %s %s' % (c, b))
         b2 = impl.step('reencode %s %s' % (c, b))
         m2 = impl.step('frombits_cls %s %s' % (c, b2)) if not b2.startswith('ERR') else 'ERR:-'
